@@ -49,6 +49,19 @@ CHECKS = {
         note=TB + " That rig's router/table generator/minimisers always produce tree-consistent tables is C03/C10/C04; the "
              "rig_c_sa annealing kernel is third-party compiled code (outputs validated only). Link/route numbering is tied to "
              "the live modules by a regenerated unit (GenNetwork)."),
+    "C18": dict(
+        text="Universal theorems over all signatures, nestings and exit paths of a Gallina model of the contextual-argument "
+             "wrapper and context stack: resolution precedence (explicit > innermost context > default) and totality, "
+             "rejection of a missing required argument before anything is sent, exact restoration of the stack on normal and "
+             "exceptional exit at any depth, exactly one stop signal on leaving an application block, connection choice for "
+             "chips and BMPs; and, for EVERY decorated method of the two controllers (signature list regenerated from the "
+             "source by ast and by introspection on every run), every command the method hands to a connection carries the "
+             "resolved chip/core/app id (symbolic checker with a once-for-all soundness proof, run over the generated list). "
+             "Tied to the code by exact whole-trace correspondence against recording fake connections; an independent Python "
+             "resolution judges every trace entry.",
+        ref="4 C18", technique="Coq proof (resolution/stack invariants, symbolic checker with soundness proof over generated signatures) + dumped signatures (T) + vm_compute trace correspondence",
+        note=TB + " Method bodies are modelled on the path taken against a fake machine where every command succeeds; failure/"
+             "retry paths are judged by the oracle only."),
 }
 NOT_YET = {}
 def main():
